@@ -14,6 +14,7 @@ import os
 import random
 
 import torch
+from .core import sint
 
 from . import tlc, tv
 
@@ -26,7 +27,7 @@ def quiet(f, *a, **k):
 
 
 def bits(t):
-    return [int(round(float(v))) for v in t.reshape(-1).tolist()]
+    return [sint(float(v)) for v in t.reshape(-1).tolist()]
 
 
 def run(run):
